@@ -121,10 +121,27 @@ template<int D> void one(Case& c, Prog const& p) {
 	ProjVis vis{A.data_elements(), m.n(), &c.rng}; Interp<ProjVis> I{vis, p}; I.run(A(), m, 0, "root");
 }
 
+// reinterpret_array_cast<U>() of READ-ONLY 1-D sources (the const& overload of the 1-D specialisation builds its layout by hand) where sizeof(T) is not a
+// multiple of sizeof(U): a larger target over a strided source (the form the repository tests use on mutable sources), and 12-byte elements seen as 8-byte ones.
+// Only extents and element addresses are compared: nothing is read through the reinterpreted type.
+struct I2 { int a, b; }; struct I3 { int a, b, c; };
+static void reinterpret_ratio_probe(Rng& g) {
+	L const n = g.in(2, 6); int const kind = int(g.below(3)); static char const* KN[] = {"int-strided(2)->8-byte", "12-byte-strided(2)->8-byte", "row-of-2-D-int-strided(2)->8-byte"};
+	describe(std::string("reinterpret ratio probe: ") + KN[kind] + " n=" + std::to_string(n)); sig_mix("ratio-probe"); sig_mix(std::uint64_t(kind)); op((std::string("reinterpret_array_cast(const 1-D):") + KN[kind]).c_str());
+	std::string const K = std::string("C12:reinterpret_array_cast(const 1-D):") + KN[kind] + ":"; count(std::string("ratio-probe:") + KN[kind]);
+	auto chk = [&](auto const& r, auto addr_of_src) { if(L(r.size()) != n) { violation(K + "extents", "the reinterpreted view has size " + std::to_string(L(r.size())) + ", the source view has " + std::to_string(n)); return; }
+		for(L k = 0; k < n; ++k) if(static_cast<void const*>(std::addressof(r[k])) != addr_of_src(k)) { violation(K + "address", "element " + std::to_string(k) + " of the reinterpreted view does not sit over source element " + std::to_string(k)); return; } };
+	if(kind == 0) { multi::array<int, 1> const A(multi::extensions_t<1>{2 * n}, 7); auto const& v = A.strided(2); auto&& r = v.reinterpret_array_cast<I2>(); chk(r, [&](L k) { return static_cast<void const*>(&A[2 * k]); }); }
+	else if(kind == 1) { multi::array<I3, 1> const A(multi::extensions_t<1>{2 * n}, I3{1, 2, 3}); auto const& v = A.strided(2); auto&& r = v.reinterpret_array_cast<I2>(); chk(r, [&](L k) { return static_cast<void const*>(&A[2 * k]); }); }
+	else { multi::array<int, 2> const M({3, 2 * n}, 5); auto const& v = M[1].strided(2); auto&& r = v.reinterpret_array_cast<I2>(); chk(r, [&](L k) { return static_cast<void const*>(&M[1][2 * k]); }); }
+	nontrivial(true);
+}
+
 int main(int argc, char** argv) {
 	cfg.maxD = 3;
 	return main_loop(argc, argv, [&](Case& c) {
 		static bool init = false; if(!init) { init = true; auto& a = st().args; for(std::size_t i = 0; i + 1 < a.size(); ++i) { if(a[i] == "--maxext") cfg.max_ext = std::atoi(a[i + 1].c_str()); if(a[i] == "--maxops") cfg.max_ops = std::atoi(a[i + 1].c_str()); } }
+		if(c.k % 64 == 5) { reinterpret_ratio_probe(c.rng); return; }
 		Prog p = gen_prog(c.rng, cfg); for(auto& o : p.ops) if(o.cat == 1 && c.rng.chance(1, 2)) o.cat = 0;
 		switch(p.root.size()) { case 1: one<1>(c, p); break; case 2: one<2>(c, p); break; default: one<3>(c, p); break; }
 	});
